@@ -113,9 +113,11 @@ def canon(case): return hashlib.sha1(json.dumps(case, sort_keys=True, default=st
 def generic_worker(mod, rank, nprocs, tier, seed, budget):
     sess = Session(mod.PROP); mod.install(sess)
     t0 = time.time(); ncase = calls = 0; samples = []; complete = True; seen_nt = set()
+    crumb = open(_crumb_path(f"props.{mod.PROP.lower()}", rank), "w")
     def run(case):
         nonlocal ncase, calls
         ncase += 1; sess.current_case = case
+        crumb.seek(0); crumb.truncate(); crumb.write(json.dumps(case, default=str)); crumb.flush()      # breadcrumb: if the interpreter dies in this case the parent reports it
         try: calls += mod.check_case(sess, case)
         except Exception as ex:
             sess.record("crash", "harness", f"check_case raised {type(ex).__name__}", traceback.format_exc()[-800:], case)
@@ -138,22 +140,48 @@ def generic_worker(mod, rank, nprocs, tier, seed, budget):
     return out
 
 
-def _worker(args):
-    modname, rank, nprocs, tier, seed, budget = args
+def _crumb_path(modname, rank): return os.path.join(ROOT, "work", "crumbs", f"{modname}.{rank}.json")
+
+
+def _worker_main(modname, rank, nprocs, tier, seed, budget, outpath):
+    """one shard = one OS process: a crash of the real code (segfault in a numba kernel) kills only this process and is reported with the case it was running"""
     try:
         hygiene(rank)
         mod = importlib.import_module(modname)
-        if hasattr(mod, "worker"): return mod.worker(rank, nprocs, tier, seed, budget)
-        return generic_worker(mod, rank, nprocs, tier, seed, budget)
+        res = mod.worker(rank, nprocs, tier, seed, budget) if hasattr(mod, "worker") else generic_worker(mod, rank, nprocs, tier, seed, budget)
     except Exception:
-        return {"crash": traceback.format_exc(), "rank": rank}
+        res = {"crash": traceback.format_exc(), "rank": rank}
+    tmp = outpath + ".tmp"
+    json.dump(res, open(tmp, "w"), default=str); os.replace(tmp, outpath)
 
 
 def run_sharded(modname, tier, seed, budget, nprocs=None):
     nprocs = nprocs or min(16, os.cpu_count() or 1)
     ctx = mp.get_context("spawn")
-    with ctx.Pool(nprocs) as pool:
-        parts = pool.map(_worker, [(modname, r, nprocs, tier, seed, budget) for r in range(nprocs)])
+    os.makedirs(os.path.join(ROOT, "work", "crumbs"), exist_ok=True); os.makedirs(os.path.join(ROOT, "work", "results"), exist_ok=True)
+    procs = []
+    for r in range(nprocs):
+        out = os.path.join(ROOT, "work", "results", f"{modname}.{r}.json")
+        for pth in (out, _crumb_path(modname, r)):
+            try: os.unlink(pth)
+            except OSError: pass
+        pr = ctx.Process(target=_worker_main, args=(modname, r, nprocs, tier, seed, budget, out)); pr.start(); procs.append((r, pr, out))
+    deadline = time.time() + budget * 3 + 600
+    parts = []
+    for r, pr, out in procs:
+        pr.join(max(1.0, deadline - time.time()))
+        if pr.is_alive():
+            pr.kill(); pr.join(5); parts.append({"crash": f"worker {r} exceeded {budget * 3 + 600:.0f} s and was killed (harness fault, not a finding)", "rank": r}); continue
+        if os.path.exists(out):
+            parts.append(json.load(open(out))); continue
+        # the process died without a result: the interpreter itself crashed inside the code under test
+        crumb = None
+        try: crumb = json.load(open(_crumb_path(modname, r)))
+        except Exception: pass
+        prop = modname.split(".")[-1].upper()
+        f = {"property": prop, "kind": "segfault", "function": "process", "clause": f"the real code must not crash the interpreter (worker exit code {pr.exitcode}: memory-unsafe access in a compiled kernel)",
+             "detail": f"exit code {pr.exitcode}", "case": crumb}
+        parts.append({"evals": {}, "findings": [f], "nfindings": {}, "cases": 0, "calls": 0, "nontrivial_hashes": [], "n_nontrivial": 0, "samples": [], "complete": False, "hard_crash": True})
     merged = {"evals": collections.Counter(), "findings": {}, "nfindings": collections.Counter(), "cases": 0, "calls": 0,
               "distinct_nontrivial": 0, "samples": [], "complete": True, "crashes": []}
     nt = set(); nt_count = 0
